@@ -64,6 +64,10 @@ def SchemaStep(info, step):
 def answer(out):
     """the model's answer in comparable form"""
     if "ok" in out:
+        if isinstance(out["ok"], dict) and "guards" in out["ok"]:
+            # fitRaise: the guards on the slice and the class of the answer are exact; the other hypotheses and the run
+            # hypothesis are used relationally only (`check_fit_raise`)
+            return {"guards": out["ok"]["guards"], "model": out["ok"].get("model")}
         if isinstance(out["ok"], dict) and "hyp" in out["ok"]:
             # fitGuards: the hypotheses of `delete_total` are used relationally only (`check_fit_guards`)
             return {k: v for k, v in out["ok"].items() if k != "hyp"}
@@ -363,9 +367,12 @@ def check_fit_guards(ctx, replay, out):
         return
     st = replay["real"]
     if g.get("det") and g.get("wf") and not g.get("partial"):
-        ctx.count("fit guards: no-raise guard holds")
+        # a heuristic class only (finding matcher): that it excludes every raise is false — the stale `open_start` of
+        # `place_nodes` raises in `find_fittable` on slices of this class (Props/C11.lean, third raise site).  The proven
+        # relation "hypotheses of fit_no_raise true => the real code returned" is checked by `check_fit_raise` (op fitRaise).
+        ctx.count("fit guards: finding class false, slice well-formed")
         if st not in ("ok", "hang"):
-            ctx.mismatch("fitGuards:guard-true-but-raises", replay, st, g)
+            ctx.count("fit guards: finding class false, slice well-formed, but the real code raised")
     if g.get("det") and g.get("term"):
         ctx.count("fit guards: termination guard holds")
         if st == "hang":
@@ -560,5 +567,167 @@ def tie_close_fragment(ctx, info, sl, reqs, metas):
         ctx.count("close_fragment:" + ("raises" if st != "ok" else "unchanged" if frag == sl.content else "filled"))
 
 
+
+# ---------------------------------------------------------------------------------------------------------------------
+# the guards of `fit_no_raise` (Props/C11.lean; lean/PM/FitRaiseGuard.lean), evaluated on the real objects
+
+
+def _kids(node):
+    return [node.child(i) for i in range(node.child_count)]
+
+
+def _suffix_all(node, pred):
+    """`pred` of every suffix of the node's children (the whole list and the empty one included), as a fragment cut from
+    the node's own content (no re-joining of text nodes)"""
+    n = node.child_count
+    return all(pred(node.content.cut_by_index(i, n)) for i in range(n + 1))
+
+
+def _fill_ok(node, frag):
+    return node.type.content_match.fill_before(frag) is not None
+
+
+def _run_ok(node, frag):
+    return node.type.content_match.match_fragment(frag) is not None
+
+
+def fillable_kids(frag):
+    """`Schema.fillableKids`: every non-leaf node: `fill_before` answers for every suffix of its children"""
+    for n in _kids_of_frag(frag):
+        if n.is_leaf:
+            continue
+        if not _suffix_all(n, lambda fr, n=n: _fill_ok(n, fr)) or not fillable_kids(n.content):
+            return False
+    return True
+
+
+def _kids_of_frag(frag):
+    return [frag.child(i) for i in range(frag.child_count)]
+
+
+def end_chain_ok(frag):
+    """`Schema.endChainOk`: along the whole last-child chain every suffix of the children is a matchable beginning"""
+    while frag.child_count:
+        n = frag.last_child
+        if n.is_leaf:
+            return True
+        if not _suffix_all(n, lambda fr, n=n: _run_ok(n, fr)):
+            return False
+        frag = n.content
+    return True
+
+
+def start_site_ok(frag, open_start):
+    """`Schema.startSiteOk`: `fill_before(node.content)` answers for the nodes of the open start spine"""
+    for _ in range(open_start):
+        if not frag.child_count or frag.first_child.is_leaf:
+            return True
+        n = frag.first_child
+        if not _fill_ok(n, n.content):
+            return False
+        frag = n.content
+    return True
+
+
+def end_site_ok(frag, open_end):
+    """`Schema.endSiteOk`: the children of the nodes of the open end spine are a matchable beginning"""
+    for _ in range(open_end):
+        if not frag.child_count or frag.last_child.is_leaf:
+            return True
+        n = frag.last_child
+        if not _run_ok(n, n.content):
+            return False
+        frag = n.content
+    return True
+
+
+def _all_states(schema):
+    out = []
+    for ty in schema.nodes.values():
+        out.extend(dfa_states(ty.content_match))
+    return out
+
+
+def stable_kids(frag, states):
+    """`Schema.stableKids`: in every fragment each node is followed by one that fits wherever the first does (over every
+    state of every content automaton), no leaf directly behind a non-leaf node"""
+    ks = _kids_of_frag(frag)
+    for a, b in zip(ks, ks[1:]):
+        if (not a.is_leaf) and b.is_leaf:
+            return False
+        for s in states:
+            m = s.match_type(a.type)
+            if m is not None and m.match_type(b.type) is None:
+                return False
+    return all(k.is_leaf or stable_kids(k.content, states) for k in ks)
+
+
+_STATES = {}
+
+
+def tie_fit_raise(ctx, info, doc, f, t, sl, st, reqs, metas):
+    """the guards of `fit_no_raise` exactly (evaluated here on the real slice with the real `fill_before` / `match_fragment`,
+    in the driver on the model), with the class of the model's answer; `st` = outcome class of the real `replace_step`.
+    Relational part (`check_fit_raise`): hypotheses of `fit_no_raise` / `fit_no_raise_while` true => the real code returned."""
+    if id(info) not in _STATES:
+        _STATES[id(info)] = (info, _all_states(info.schema))
+    states = _STATES[id(info)][1]
+    g = {"fillable": fillable_kids(sl.content), "endChain": end_chain_ok(sl.content),
+         "stable": stable_kids(sl.content, states), "startSite": start_site_ok(sl.content, sl.open_start),
+         "endSite": end_site_ok(sl.content, sl.open_end), "wf": slice_wf(sl), "term": term_guard(sl)}
+    st2, fits = outcome(lambda: fits_trivially(doc.resolve(f), doc.resolve(t), sl))
+    cls = ("trivial fit" if (st2 == "ok" and fits) or (f == t and not sl.size) else
+           "Fitter, empty slice" if not sl.content.child_count else
+           "Fitter, open slice" if sl.open_start or sl.open_end else "Fitter, closed slice")
+    replay = {"schema": info.name, "doc": doc.to_json(), "from": f, "to": t, "slice": sl.to_json(), "real": st, "cls": cls}
+    exp = {"guards": g, "model": "ok" if st == "ok" else "outOfFuel" if st == "hang" else "raises"}
+    reqs.append({"op": "fitRaise", "s": info.lean_id, "doc": info.node(doc), "from": f, "to": t, "slice": info.slice(sl)})
+    metas.append(("fitRaise", replay, exp))
+
+
+def check_fit_raise(ctx, replay, out):
+    """relational: with the hypotheses of `fit_no_raise` (static guards) or of `fit_no_raise_while` (termination guard, static
+    site guard, run hypothesis) true in the model, the real replace_step returned"""
+    o = out.get("ok")
+    if not isinstance(o, dict):
+        return
+    g, st = o["guards"], replay["real"]
+    prefix = g["fillable"] and g["endChain"]
+    ctx.count("fit raise: openPrefixOk=%s stableOk=%s wfWhile=%s wf=%s" % (prefix, g["stable"], o.get("wfWhile"), g["wf"]))
+    if not (o.get("hyp") and g["wf"] and prefix and g["stable"]):
+        ctx.count("fit raise: hypotheses of fit_no_raise fail (%s)" % replay.get("cls"))
+    if not (g["startSite"] and g["endSite"]):
+        ctx.count("fit raise: site conditions false for the slice as it stands")
+    if o.get("hyp") and g["wf"] and prefix and g["stable"]:
+        ctx.count("fit raise: hypotheses of fit_no_raise hold")
+        ctx.count("fit raise: hypotheses of fit_no_raise hold (%s)" % replay.get("cls"))
+        if st != "ok":
+            ctx.mismatch("fitRaise:fit_no_raise-hypotheses-true-but-not-returned", replay, st, o)
+    if o.get("hyp") and g["term"] and prefix and o.get("wfWhile"):
+        ctx.count("fit raise: hypotheses of fit_no_raise_while hold")
+        if st != "ok":
+            ctx.mismatch("fitRaise:fit_no_raise_while-hypotheses-true-but-not-returned", replay, st, o)
+    if g["wf"] and g["stable"] and not o.get("wfWhile"):
+        # stableOk_keeps_wf
+        ctx.mismatch("fitRaise:stableOk-but-unplaced-slice-not-wf-over-the-run", replay, True, o)
+    if st not in ("ok", "hang"):
+        ctx.count("fit raise: real replace_step raised, openPrefixOk=%s wfWhile=%s" % (prefix, o.get("wfWhile")))
+        # fit_raises_only_at_sites (Props/C11.lean): a run that raises reaches a state in which the unplaced slice is not
+        # well-formed or a site condition fails
+        bad = o.get("bad")
+        if o.get("hyp"):
+            if not isinstance(bad, list):
+                ctx.mismatch("fitRaise:raised-without-a-failing-site-condition", replay, "a state with wf/startSite/endSite false", o)
+            else:
+                ctx.count("fit raise: real replace_step raised; first failing condition: %s" % "+".join(
+                    n_ for n_, v in zip(("unplaced slice not wf", "start site", "end site"), bad) if not v))
+    # openPrefixOk_of_cut (Props/C11.lean): the generated slices are cut from valid documents; when their non-leaf nodes have
+    # suffix-closed content (`Schema.homogKids`, evaluated by the driver) the static guard holds
+    ctx.count("fit raise: slice nodes have suffix-closed content: %s (schema: %s)" % (o.get("homog"), o.get("homogSchema")))
+    if o.get("homog") and not prefix:
+        ctx.mismatch("fitRaise:homogeneous-cut-slice-but-openPrefixOk-false", replay, True, o)
+
+
 EXACT_OPS = ("fitsTrivially", "replaceStepTrivial", "deleteRangeTarget", "deleteRangeStep", "replaceStep", "fillBeforeO",
-             "findWrappingO", "replaceRangePlan", "replaceRangeWithPlan", "replaceRangeWithTarget", "closeSlice", "fitGuards", "fitEmit")
+             "findWrappingO", "replaceRangePlan", "replaceRangeWithPlan", "replaceRangeWithTarget", "closeSlice", "fitGuards", "fitEmit",
+             "fitRaise")
